@@ -219,6 +219,7 @@ func (r *lrunner) setup() {
 	Conf.TreeDump = 3
 	Conf.CheckVHash = c.CheckVHash
 	Conf.Init()
+	Conf.SplitCap = 2048 // the default (1M slots per hint split) costs 8 MB of zeroing per opened bucket
 	config.MCConf.BodyMax = 1 << 20
 	SecsBeforeDump = 1000000
 	if c.Threshold > 0 {
@@ -454,6 +455,7 @@ func (r *lrunner) step(o *lop) (out []ev, stop bool) {
 		out = append(out, r.set(o.K, lvalBytes(o.V), 0, o.Rev))
 	case "setnum":
 		e := r.set(o.K, []byte(strconv.Itoa(o.V)), FLAG_INCR, o.Rev)
+		e["num"] = o.V // the decimal value written (input), so that the oracle can follow incr
 		out = append(out, e)
 	case "del":
 		out = append(out, r.set(o.K, nil, 0, -1))
